@@ -189,7 +189,9 @@ func systemGenMulti(c *Ctx, w *trace.Writer, tmp string) {
 		if !c.Want("multi-" + sched) {
 			continue
 		}
-		roms := romList(c, tmp, 6)
+		roms := romList(c, tmp, 12)
+		// roms[2] and roms[10] are two different programs on the same kind of cartridge (MBC1, no RAM declared)
+		sets := [][]int{{2, 10}, {0, 1, 4}, {2, 4}, {3, 10, 6}, {0, 8}, {5, 2, 10}}
 		frames := 3
 		groups := 2
 		if c.Thorough() {
@@ -198,10 +200,10 @@ func systemGenMulti(c *Ctx, w *trace.Writer, tmp string) {
 		}
 		n := 0
 		for g := 0; g < groups; g++ {
-			size := 2 + g%2
+			size := len(sets[g])
 			var rs []string
-			for k := 0; k < size; k++ {
-				rs = append(rs, roms[(g+k*2)%len(roms)])
+			for _, k := range sets[g] {
+				rs = append(rs, roms[k%len(roms)])
 			}
 			ps := perms(size)
 			if !c.Thorough() {
